@@ -34,7 +34,7 @@ def axes(tier):
         dm=[(1, 1), (2, 1), (1, 2)] if quick else [(1, 1), (2, 1), (3, 1), (1, 2), (2, 2)],
         q=[1, 2, 4] if quick else [1, 2, 3, 4, 6, 8],
         init=["exact", "inexact"],
-        variant=["plain"] if quick else ["plain", "scaled", "diffuse", "constraint_init", "mle_nocorr"],
+        variant=["plain"] if quick else ["plain", "scaled", "diffuse", "constraint_init", "mle_nocorr", "prior_ou", "prior_matern"],
         steps=[2.0 ** -7, 0.125, 0.5] if quick else alphabets.STEP_MENU,
         lengths=[3] if quick else [1, 2, 3, 4],
     )
@@ -48,8 +48,10 @@ def _grids_for(ax, q, tier):
 
     gs = [g for g in alphabets.grids(steps, ax["lengths"]) if compare.admissible(g, q)]
     if tier == "thorough":
-        # all sequences up to length 3 plus, for length 4, every sequence with at most two distinct step sizes
-        gs = [g for g in gs if len(g) <= 4 or len(set(np.diff(g))) <= 2]
+        # all sequences up to length 2 over the full menu; lengths 3 and 4 over the three-value menu {2^-7, 1/8, 1/2}
+        # (length 4: at most two distinct step sizes)
+        small = {2.0 ** -7, 0.125, 0.5}
+        gs = [g for g in gs if len(g) <= 3 or (set(np.diff(g)) <= small and (len(g) == 4 or len(set(np.diff(g))) <= 2))]
     return gs
 
 
@@ -59,8 +61,15 @@ def enumerate_cases(tier, seed):
     for (d, m), q, init, variant, (calib, relin) in itertools.product(ax["dm"], ax["q"], ax["init"], ax["variant"], ax["calib"]):
         if q < m:
             continue
-        if q >= 6 and d >= 2 and tier == "thorough" and (d, m) != (2, 1):
-            continue  # the exact reference at n = (q+1)d > 18 is too slow; high orders are covered for d <= 2
+        if tier == "thorough":
+            # thorough budget (about one hour on 16 cores): high orders for d <= 2 only (the exact reference at n = (q+1)d > 18 is too
+            # slow); the non-plain variants on a (d, m, q) sub-lattice
+            if (d, m) in ((3, 1), (2, 2)) and q not in (2, 4):
+                continue
+            if (d, m) == (2, 1) and q > 6:
+                continue
+            if variant != "plain" and ((d, m) not in ((2, 1), (1, 2)) or q not in (2, 4)):
+                continue
         if variant == "mle_nocorr" and calib != "mle":
             continue
         if variant == "diffuse" and q < m + 1:
@@ -68,11 +77,15 @@ def enumerate_cases(tier, seed):
         fnames = sorted(alphabets.fields(d, m, tier))
         ninits = len(alphabets.INITS[(d, m)])
         if tier == "quick":
-            # VERIF_SEED selects which initial-value palette the quick tier uses; thorough runs all palettes
+            # VERIF_SEED selects which initial-value palette the quick tier uses; thorough runs all palettes on the plain variant
             init_ids = [seed % ninits]
         else:
-            init_ids = list(range(ninits))
+            init_ids = list(range(ninits)) if (variant == "plain" and q <= 4) else [0]
+            if variant != "plain" or q > 4:
+                fnames = fnames[:2]
         for ssm, lin, fname, ii in itertools.product(ax["ssm"], ax["lin"], fnames, init_ids):
+            if variant in ("prior_ou", "prior_matern") and ssm != "dense":
+                continue  # exponential priors exist for the dense factorisation only
             ngr = len(_grids_for(ax, q, tier))
             cid = f"{ssm}/{calib}{'+relin' if relin else ''}/{lin}/d{d}m{m}/q{q}/{init}/{variant}/{fname}/u{ii}"
             cases.append(dict(id=cid, group=f"d{d}m{m}/q{q}/{init}/{variant}/{calib}", ssm=ssm, calib=calib, relin=relin, lin=lin, d=d, m=m, q=q,
@@ -113,6 +126,8 @@ def cfg_of(case):
         cfg["constraint_init"] = True
     if v == "mle_nocorr":
         cfg["correction"] = False
+    if v in ("prior_ou", "prior_matern"):
+        cfg["prior"] = v[6:]
     return cfg
 
 
@@ -157,13 +172,38 @@ def reference(case, C, grid, damp, mean0_full, std0):
     if key in _REF_CACHE:
         return _REF_CACHE[key], False
     field = gauss.PolyField(C, case["d"], case["m"])
-    res = gauss.ekf(field=field, q=case["q"], grid=grid, mean0=mean0_full, std0=std0, base_scale=scale_vec_of(case),
+    transition = None
+    if case["variant"] in ("prior_ou", "prior_matern"):
+        transition = _expo_transition(case["variant"][6:], case["q"], case["d"])
+    res = gauss.ekf(field=field, q=case["q"], grid=grid, mean0=mean0_full, std0=std0, base_scale=scale_vec_of(case), transition=transition,
                     lin="ts0" if case["lin"] == "ts0" else "ts1", structure=ref_structure(case), damp=damp, calib=case["calib"],
                     correction=case["variant"] != "mle_nocorr", constraint_init=case["variant"] == "constraint_init")
     if len(_REF_CACHE) > 20000:
         _REF_CACHE.clear()
     _REF_CACHE[key] = res
     return res, True
+
+
+_TRANS = {}
+
+
+def _expo_transition(kind, q, d):
+    """Exact discretisation of the exponential priors (120-digit Van Loan), cached per step size."""
+    from mc import impl
+    from mc.props import C09
+
+    F = impl.sde_matrices(kind, q, d)
+    n = (q + 1) * d
+    L = np.zeros((n, d))
+    L[-d:, :] = np.eye(d)
+
+    def transition(h):
+        key = (kind, q, d, str(h))
+        if key not in _TRANS:
+            _TRANS[key] = C09._van_loan(F, L, h)
+        return _TRANS[key]
+
+    return transition
 
 
 def run_cases(cases):
